@@ -26,7 +26,7 @@ Definition ex_R (r : Z) := EReg None r.
      10: L0:  ins_7(I0 * 2 + 1, 2, I1 - I0);
      20: I1 += I0 * 2 + (I1 - 1);   if (--I0 > 0) goto L0;
      30: I2 = I1 > 10 ? 1 : I1 * 5;   unless (I2 == 1 || I1 < 0) goto L1 @ 30;
-     40: ins_8();  L1:  int x = I2 == 1 ? I1 + 1 : 0;  {"H"}: ins_8();  ins_9(x);  (end of x's scope)  ;     *)
+     40: ins_8();  L1:  int x = I2 == 1 ? I1 + 1 : 0;  {"H"}: ins_8();  ins_9(x, I1 >= 27 ? I2 + 2 : 0);  (end of x's scope)  ;     *)
 Definition ex_body : list (Z * Z * sstmt) := [
   (0, 255, SAssign (mkvar None (VReg 1010)) None (ELitI 3));
   (10, 255, SLabel (LUser 0));
@@ -39,7 +39,7 @@ Definition ex_body : list (Z * Z * sstmt) := [
   (40, 255, SLabel (LUser 1));
   (40, 255, SDecl TInt [(0%nat, Some (ETern (EBin (ex_R 1012) Eq (ELitI 1)) (EBin (ex_R 1011) Add (ELitI 1)) (ELitI 0)))]);
   (40, 4, SCall 8 []);
-  (40, 255, SCall 9 [EVar None 0%nat]);
+  (40, 255, SCall 9 [EVar None 0%nat; ETern (EBin (ex_R 1011) Ge (ELitI 27)) (EBin (ex_R 1012) Add (ELitI 2)) (ELitI 0)]);
   (40, 255, SScopeEnd 0%nat);
   (40, 255, SNop)
 ].
@@ -48,7 +48,7 @@ Definition ex_st0 := mkpst (mkmem (fun _ => VInt 0) (fun _ => VInt 0)) 0 0 [].
 Lemma body_example :
   let rty := fun _ : Z => TInt in let lty := fun _ : nat => TInt in let libm := fun (_ : unop) (_ : Z) => 0 in
   exists code s' st',
-    lower_body ex_avail true rty lty 20 ex_body (mklst 1 []) = Ok (code, s') /\ length code = 41%nat /\
+    lower_body ex_avail true rty lty 20 ex_body (mklst 1 []) = Ok (code, s') /\ length code = 49%nat /\
     wf_body rty lty 1 ex_body /\ fresh lty (p_mem ex_st0) 1 /\
     sprog gen_optable libm rty lty 0 (Some 0%nat) true 10 ex_body Exec ex_st0 = Ok st' /\
     p_time st' = 40 /\ p_real st' = 60 /\ length (p_log st') = 5%nat /\ regs (p_mem st') 1011 = VInt 27 /\
@@ -73,7 +73,7 @@ Proof.
     apply Forall_cons. { exact I. }
     apply Forall_cons. { cbn [snd wf_stmt]. left. exists 0%nat. eexists. split; [reflexivity|]. split; [lia|]. split; [reflexivity|]. right. reflexivity. }
     apply Forall_cons. { cbn [snd wf_stmt]. apply Forall_nil. }
-    apply Forall_cons. { cbn [snd wf_stmt]. apply Forall_cons; [split; reflexivity|]. apply Forall_nil. }
+    apply Forall_cons. { cbn [snd wf_stmt]. apply Forall_cons; [split; reflexivity|]. apply Forall_cons; [split; reflexivity|]. apply Forall_nil. }
     apply Forall_cons. { cbn [snd wf_stmt]. lia. }
     apply Forall_cons. { exact I. }
     apply Forall_nil. }
